@@ -50,6 +50,9 @@ type TNode struct {
 	Monitor             func(rec func(TCall), slowMs int) (kcache.Monitor, error)
 }
 
+// typedUnitary: the next typed monitor is built with the package's unitary handler (ToUnitary)
+var typedUnitary bool
+
 // typedBuilders is filled by the per-package glue files (generated from
 // typed_glue.go.tmpl by build_sim.sh, one per typed package).
 var typedBuilders = map[string]func(ctx context.Context, log logutil.Log, c client.Client) (*TNode, error){}
@@ -185,6 +188,7 @@ type DAct struct {
 	Filter2 world.FilterSpec  `json:"filter2,omitempty"` // refilter-race: the competing filter
 	SlowMs  int               `json:"slow_ms,omitempty"`
 	Ms      int               `json:"ms,omitempty"`
+	Unitary bool              `json:"unitary,omitempty"` // monitor: the typed side uses the package's UnitaryHandler through ToUnitary
 	Stalled bool              `json:"stalled,omitempty"` // the subscriber does not read until the end (C10's typed position)
 }
 
@@ -206,6 +210,7 @@ type dnode struct {
 	tmon   []TCall
 	umon   []TCall
 	closed  bool
+	unitary bool // monitor whose typed side is a unitary handler
 	racy    bool // concurrent Refilter calls were made on it: event streams of the two sides are no longer comparable, caches are
 	stalled bool
 	appliesAtCreate int
@@ -262,7 +267,7 @@ func genC20(g GenCtx) interface{} {
 			// one event per write and per stage only: no filters (a refilter is a batch), no monitors
 			k = pick(rng, "sub", "sub", "clone")
 		}
-		sc.Acts = append(sc.Acts, DAct{Op: "mknode", Node: p, Kind: k, Filter: randFilter(rng), SlowMs: pickInt(rng, 0, 0, 3)})
+		sc.Acts = append(sc.Acts, DAct{Op: "mknode", Node: p, Kind: k, Filter: randFilter(rng), SlowMs: pickInt(rng, 0, 0, 3), Unitary: k == "monitor" && rng.Intn(3) == 0})
 		switch k {
 		case "clone", "clonef", "cloneff":
 			pubs = append(pubs, nodes)
@@ -459,6 +464,11 @@ func runC20(sci interface{}) {
 			}
 			if n.kind == "monitor" {
 				a, b := callSigs(n.tmon, false), callSigs(n.umon, true)
+				if n.unitary {
+					// a unitary handler is initialised with THE object when the publisher
+					// holds exactly one of the package's type, and not at all otherwise
+					b = unitaryView(n.umon)
+				}
 				for _, c := range n.tmon {
 					if c.Nil {
 						detsim.Fail("typed-differs:nil-callback", "%s: the typed monitor of package %s invoked On%s with a nil object (a foreign-typed object was not skipped)", name, sc.Kind, strings.Title(c.Kind))
@@ -617,7 +627,9 @@ func runC20(sci interface{}) {
 				n.t, e1 = tp.CloneForFilter()
 				n.u, e2 = up.CloneForFilter()
 			case "monitor":
+				typedUnitary, n.unitary = a.Unitary, a.Unitary
 				n.tmonitor, e1 = tp.Monitor(func(c TCall) { n.tmon = append(n.tmon, c) }, a.SlowMs)
+				typedUnitary = false
 				n.umonitor, e2 = up.Monitor(func(c TCall) { n.umon = append(n.umon, c) }, a.SlowMs)
 				n.t, n.u = &TNode{}, &TNode{}
 			default:
@@ -775,6 +787,22 @@ func sameUpToBatchOrder(a, b []string) bool {
 		}
 	}
 	return true
+}
+
+// unitaryView: what a unitary handler must have been told, derived from the
+// untyped monitor's record.
+func unitaryView(calls []TCall) []string {
+	var out []string
+	for _, s := range callSigs(calls, true) {
+		if strings.HasPrefix(s, "init [") {
+			if strings.Count(s, "@") == 1 { // exactly one object in the restricted initial list
+				out = append(out, s)
+			}
+			continue
+		}
+		out = append(out, s)
+	}
+	return out
 }
 
 func callSigs(calls []TCall, restrict bool) []string {
